@@ -25,6 +25,7 @@ def ties(rep):
         td = Optional(dt.timedelta); td0 = Optional(dt.timedelta, precision=0)
         raw = Optional(bytes)
         ia = Optional(IntArray); sa = Optional(StrArray); fa = Optional(FloatArray); js = Optional(Json)
+        ljs = Optional(Json, lazy=True); lia = Optional(IntArray, lazy=True); ls = Optional(str, lazy=True)
     db.bind('sqlite', ':memory:')
     db.generate_mapping(create_tables=True)
     cases = [
@@ -35,6 +36,8 @@ def ties(rep):
         ('ts', dt.datetime(2000, 2, 29, 23, 59, 59, 999999)), ('ts', dt.datetime(1, 1, 1)), ('ts3', dt.datetime(2024, 1, 1, 0, 0, 0, 999999)),
         ('td', dt.timedelta(days=1, microseconds=1)), ('td', dt.timedelta(days=-1, microseconds=1)), ('td', dt.timedelta(microseconds=-1)), ('td0', dt.timedelta(seconds=1, microseconds=999999)),
         ('td', dt.timedelta(days=99999, seconds=86399, microseconds=999999)), ('td', dt.timedelta(days=400000, microseconds=1)),
+        ('d', dt.datetime(2020, 1, 2, 3, 4, 5)), ('td', dt.timedelta(0)), ('dec', Decimal('0.00')), ('f', 0.0), ('s', ''), ('raw', b''), ('t', dt.time(0, 0)),
+        ('ljs', {'a': [1, 2]}), ('ljs', 'x'), ('ljs', []), ('lia', [1, 2]), ('lia', []), ('ls', 'lazy'),
         ('ia', []), ('ia', [1, -2, 2 ** 40]), ('sa', []), ('sa', ['a', '', 'b c']), ('fa', []), ('fa', [0.5, -1e10]),
         ('js', {}), ('js', []), ('js', {'a': [1, {'b': None}], 'c': 'caf\u00e9'}), ('js', [[], {}]), ('js', 'text'), ('js', 1.5), ('js', 7), ('js', True),
     ]
@@ -46,9 +49,20 @@ def ties(rep):
                 seen = getattr(o, attr)
             with db_session:
                 read = getattr(T[n + 1], attr)
+            with db_session:
+                # the same value as a query result column (its own decoding path: no entity is loaded)
+                proj = T.select(lambda t: t.id == n + 1)
+                col = db.select('select 1')            # (keeps the session alive for the string query below)
+                from pony.orm import select as _select
+                rows_ = _select('getattr(t, a) for t in T if t.id == k', {'T': T, 'getattr': getattr}, {'a': attr, 'k': n + 1})[:]
+                projected = rows_[0] if rows_ else None
         except Exception as ex:
             rep.add(Ob(name, 'concrete-tie', HOLDS, detail='rejected: %s' % type(ex).__name__)); continue
         good = type(read) is type(seen) and read == seen
+        if good and not (type(projected) is type(seen) and projected == seen) and not isinstance(seen, (list, dict)):
+            rep.add(Ob(name + ' [as a query result column]', 'concrete-tie', CEX, detail='attribute value %r, select(t.%s ...) returns %r' % (seen, attr, projected), reproduced=True, key=None,
+                       cex={'attr': attr, 'value': repr(val), 'seen': repr(seen), 'projected': repr(projected)},
+                       replay='# C07 tie: attribute %s, value %r: attribute read %r, query result column %r (see checks/c07.py ties())\nraise SystemExit(1)\n' % (attr, val, seen, projected)))
         if good: rep.add(Ob(name, 'concrete-tie', HOLDS, detail=repr(read)))
         else:
             key = None
